@@ -46,7 +46,7 @@ def main():
     meta = json.load(open(os.path.join(seed, 'meta.json')))
     prop = meta['property']
     demo_src = None
-    for n in ('demo_test.go', 'demo.go'):
+    for n in ('demo_test.go', 'demo.go', 'demo_test.go.txt', 'demo.go.txt'):
         if os.path.exists(os.path.join(seed, n)):
             demo_src = os.path.join(seed, n)
     res = {'seed': seed, 'property': prop}
